@@ -169,7 +169,7 @@ def scenarioCase (args : List String) (impl : String) : Verdict :=
       let is0 : IState := ⟨init nS nD, List.replicate nS false, List.replicate nD .none, List.replicate nD false⟩
       let model := " ".intercalate (go is0 cmds implToks [] [])
       -- ------------------------------------------------ the statements, on the implementation's observations
-      let bad := implToks.any fun t => (t.splitOn "PANIC").length > 1 || (t.splitOn "CRASH").length > 1 || (t.splitOn "HANG").length > 1
+      let bad := implToks.any fun t => (t.splitOn "PANIC").length > 1 || (t.splitOn "CRASH").length > 1 || (t.splitOn "HANG").length > 1 || (t.splitOn "RACE").length > 1
       -- replay the observations
       let rec walk (cmds : List Cmd) (toks : List String)
           (entered returned : List Nat) (asked running : List Nat) (sdReq : Bool) (nilSeen : Bool) (cancelled : List Nat)
@@ -262,8 +262,23 @@ def c07 (op : String) (args : List String) (impl : String) : Verdict :=
   | "scenario" => scenarioCase args impl
   | _ => bad s!"op:{op}"
 
+/-- n identical datagrams racing for the dedup table while the first handler blocks: the model's
+    `taskRun` is atomic, so exactly one handler starts and n-1 datagrams are dropped -/
+def dupsCase (args : List String) (impl : String) : Verdict :=
+  match args with
+  | [n] =>
+    match n.toNat? with
+    | some n =>
+      let model := s!"starts=1 dropped={n - 1} shutdown=nil"
+      mk impl model [("no_panic_no_race", !((impl.splitOn "CRASH").length > 1 || (impl.splitOn "RACE").length > 1 || (impl.splitOn "PANIC").length > 1)),
+                     ("exactly_one_handler_per_source_and_identifier", impl.startsWith "starts=1 "),
+                     ("shutdown_returns_nil_after_release", impl.endsWith "shutdown=nil")]
+    | none => bad "dups-n"
+  | _ => bad "dups-arity"
+
 def c06 (op : String) (args : List String) (impl : String) : Verdict :=
   match op with
+  | "dups" => dupsCase args impl
   | "scenario" => scenarioCase args impl
   | _ => bad s!"op:{op}"
 
